@@ -10,6 +10,7 @@
 (*   Deliver   for an addressee w: append the received value to the        *)
 (*             collection at Inbox.IRI(w) -- C15 (collection IRI), C13     *)
 (*             (insertion-ordered set); the network may deliver again      *)
+(*   Persist   an inbox is stored and loaded (gob) -- C03                  *)
 (*                                                                         *)
 (* Two messages with the same addressing travel at once.  TLC checks that  *)
 (* the composition gives what a federation relies on: nothing private is   *)
@@ -74,9 +75,12 @@ Redeliver(m, w) == /\ phase = "sending" /\ extra < MaxRedeliver
                    /\ w \in {ret[i] : i \in 1..Len(ret)} /\ Deliverable(w) /\ <<m, w>> \notin pending
                    /\ boxes' = [boxes EXCEPT ![w] = AppendSet(@, m)] /\ extra' = extra + 1
                    /\ UNCHANGED <<st, ret, phase, st0, wire, pending>>
+\* an inbox is written to storage and read back (gob, C03): nothing observable changes -- a named stuttering step that the
+\* trace specification checks on the real collections
+Persist(w) == /\ phase \in {"sending", "delivered"} /\ boxes[w] # <<>> /\ UNCHANGED dvars
 Finish == /\ phase = "sending" /\ pending = {} /\ phase' = "delivered"
           /\ UNCHANGED <<st, ret, st0, wire, boxes, pending, extra>>
-DNext == Address \/ Strip \/ StripEarly \/ Encode \/ (\E m \in Msgs, w \in Who : Deliver(m, w) \/ Redeliver(m, w)) \/ Finish
+DNext == Address \/ Strip \/ StripEarly \/ Encode \/ (\E m \in Msgs, w \in Who : Deliver(m, w) \/ Redeliver(m, w)) \/ (\E w \in Who : Persist(w)) \/ Finish
 DSpec == DInit /\ [][DNext]_dvars /\ WF_dvars(Address \/ Strip \/ Encode \/ Finish \/ (\E m \in Msgs, w \in Who : Deliver(m, w)))
 
 \* ---- what the composition guarantees -------------------------------------
